@@ -464,6 +464,11 @@ const prelude = `
 (assert (forall ((a (Array Int Int)) (o Int) (n Int) (k Int)) (! (=> (and (<= 0 k) (< k n) (<= 0 (select a (sidx o k))) (<= (select a (sidx o k)) 255)) (= (sat (str_of_bytes a o n) k) (select a (sidx o k)))) :pattern ((select (sbytes (str_of_bytes a o n)) k)))))
 (declare-fun str_of_runes ((Array Int Int) Int Int) Str)
 (assert (forall ((a (Array Int Int)) (o Int) (n Int)) (! (and (>= (slen (str_of_runes a o n)) (ite (< n 0) 0 n)) (=> (<= n 0) (= (slen (str_of_runes a o n)) 0)) (<= (slen (str_of_runes a o n)) (* 4 (ite (< n 0) 0 n)))) :pattern ((str_of_runes a o n)))))
+; first byte of string(runes): the first rune's own value when it is ASCII, a lead byte >= 128 otherwise (invalid runes become U+FFFD)
+(assert (forall ((a (Array Int Int)) (o Int) (n Int)) (! (=> (>= n 1)
+   (ite (and (<= 0 (select a (sidx o 0))) (< (select a (sidx o 0)) 128))
+        (= (sat (str_of_runes a o n) 0) (select a (sidx o 0)))
+        (>= (sat (str_of_runes a o n) 0) 128))) :pattern ((str_of_runes a o n)))))
 ; utf8 encoding of one rune: string(r)
 (declare-fun utf8 (Int) Str)
 (define-fun rvalid ((r Int)) Bool (and (<= 0 r) (<= r 1114111) (not (and (<= 55296 r) (<= r 57343)))))
